@@ -22,7 +22,7 @@ REQUIRED = {"c07_pairs": 1250, "c07_pairs_strictly_larger": 125, "c07_scans_cut_
 
 
 def plan(tier, seed):
-    return ec.plan(ID, tier, seed, stride3=40)
+    return ec.plan(ID, tier, seed, stride3=40, also=("psstack",))  # stacked encoded commands: a decoder must not unwrap further layers itself
 
 
 def run_shard(spec, ctx):
